@@ -310,7 +310,7 @@ def main(ctx):
     lean_ok, errs = ctx.lake_build(["GojaModel.C14.Props", "GojaModel.C14.Tie", "model_c14"])
     if lean_ok:
         ctx.audit("GojaModel.C14.Props", expect_min=19)
-        ctx.audit("GojaModel.C14.Tie", expect_min=40)
+        ctx.audit("GojaModel.C14.Tie", expect_min=47)
         if ctx.tier == "thorough":
             ctx.leanchecker("GojaModel.C14.Props")
     ctx.log("lean build + audit done:", lean_ok)
@@ -421,8 +421,8 @@ def main(ctx):
     ctx.stats.update({"host_outcomes": hosts, "payloads": payload_kinds, "depths": depth_hist, "frame_kinds": frame_hist,
                       "cases_with_catch_log": n_catch, "cases_with_finally_log": n_fin, "cases_with_rejection": n_rej})
 
-    # known finding: Exception.Error() panics when the thrown object cannot be converted to a string
-    KNOWN_CLAUSES = {"error-method:panics": "error-method-panics-on-unstringifiable-value"}
+    # no unrepaired finding at present (joined-uncatchable: cbcbe34, Error() panic: fe5ea29 are fixed)
+    KNOWN_CLAUSES = {}
     KNOWN = {sig: KNOWN_CLAUSES[h[0][3]] for sig, h in by_sig.items() if h and h[0][3] in KNOWN_CLAUSES}
     # (a reproduced known finding is reported by ctx.violation as KNOWN-FINDING, it is not a broken obligation)
     ctx.obligation("oracle:property-holds-on-all-implementation-answers", "correspondence",
